@@ -156,3 +156,96 @@ pub fn self_check() -> Result<(), String> {
     }
     Ok(())
 }
+
+
+// ---------------------------------------------------------------------------------------------
+// S9 - the disk behind the include handler's back. Every byte of source is supposed to arrive
+// through the handler; a compiler that also looks at the file system (a "convenience" fallback
+// for names the handler does not know) makes the disk and the working directory inputs. A worker
+// therefore lives in a private scratch directory, and for small trees every execution finds
+// decoy files there under the very names of the scenario's files - with contents that differ
+// from execution to execution. Nothing on the unchanged tree ever opens them.
+
+/// Move the calling process into a fresh private directory (workers call this once at start-up,
+/// before anything could have looked at the working directory)
+pub fn enter_scratch_directory() -> Option<std::path::PathBuf> {
+    // (the supervisor names a parent directory and removes it with everything in it when the
+    // campaign ends, so that workers that were killed leave nothing behind)
+    let parent = std::env::var(SCRATCH_ENV)
+        .map(std::path::PathBuf::from)
+        .unwrap_or_else(|_| std::env::temp_dir());
+    let dir = parent.join(format!("rssl-sim-{}", std::process::id()));
+    std::fs::create_dir_all(&dir).ok()?;
+    std::env::set_current_dir(&dir).ok()?;
+    Some(dir)
+}
+
+pub const SCRATCH_ENV: &str = "RSSL_SIM_SCRATCH";
+
+/// The supervisor's side: the parent directory of this campaign's workers
+pub fn campaign_scratch_parent() -> std::path::PathBuf {
+    std::env::temp_dir().join(format!("rssl-sim-run-{}", std::process::id()))
+}
+
+fn decoy_safe(name: &str) -> bool {
+    !name.is_empty()
+        && !name.starts_with('/')
+        && name.len() < 80
+        && name.split('/').all(|seg| !seg.is_empty() && seg != ".." && seg != ".")
+        && name.bytes().all(|b| b.is_ascii_alphanumeric() || matches!(b, b'_' | b'.' | b'/' | b'-'))
+}
+
+/// Decoy files for one execution; removed again when dropped
+pub struct Decoys {
+    files: Vec<std::path::PathBuf>,
+}
+
+pub static DECOYS_WRITTEN: AtomicU64 = AtomicU64::new(0);
+
+impl Decoys {
+    /// Only when the process is in its scratch directory (never in /verif or a user's directory)
+    pub fn plant(names: &[&String], key: u64) -> Decoys {
+        let mut files = Vec::new();
+        let in_scratch = std::env::current_dir()
+            .ok()
+            .map(|d| {
+                d.starts_with(std::env::temp_dir())
+                    && d.file_name().is_some_and(|n| n.to_string_lossy().starts_with("rssl-sim-"))
+            })
+            .unwrap_or(false);
+        if !in_scratch || names.len() > 12 {
+            return Decoys { files };
+        }
+        for name in names {
+            if !decoy_safe(name) {
+                continue;
+            }
+            let path = std::path::PathBuf::from(name.as_str());
+            if let Some(parent) = path.parent()
+                && !parent.as_os_str().is_empty()
+            {
+                let _ = std::fs::create_dir_all(parent);
+            }
+            let text = format!(
+                "decoy_{:x} {} ;\nstatic const int decoy_{:x} = {} ;\n",
+                key,
+                key % 97,
+                key,
+                key % 89
+            );
+            if std::fs::write(&path, text).is_ok() {
+                DECOYS_WRITTEN.fetch_add(1, Ordering::Relaxed);
+                files.push(path);
+            }
+        }
+        Decoys { files }
+    }
+}
+
+impl Drop for Decoys {
+    fn drop(&mut self) {
+        for f in &self.files {
+            let _ = std::fs::remove_file(f);
+        }
+    }
+}
